@@ -1,5 +1,5 @@
 #!/venv/bin/python
-"""Stand-alone replay (exit 1 while the behaviour is present) - candidate C15 finding, for triage.
+"""F-AC (C15), found by builder b-c14c15. Exit 1 while the defect is present.
 
 Data accepted by the code's own validation (interpolation.validate = True: check_data_complete finds every combination
 of left edges, no overlap, no gap) in which the LAST bin's right edge differs between sub-tables:
@@ -53,7 +53,10 @@ sim = SimulationContext(components=[probe], logging_verbosity=0,
                         configuration={"population": {"population_size": 2},
                                        "interpolation": {"validate": True, "extrapolate": False}})
 boot.quiet_logging()
-sim.setup()                      # the data passes the validation
+try:
+    sim.setup()                  # before the fix the data passed the validation
+except ValueError as e:          # after the fix: the malformed data is refused when the table is built
+    print("data rejected by the validation:", str(e)[:100]); sys.exit(0)
 sim.initialize_simulants()
 print("simulant 1 (age 11, era 2001.5: inside [5,12) x [2001,2002)):", float(probe.table(pd.Index([1])).iloc[0]))
 try:
